@@ -358,7 +358,7 @@ impl Rig for WsRig {
     fn runs(&self, tier: Tier) -> u64 {
         match tier {
             Tier::Quick => 600_000,
-            Tier::Thorough => 20_000_000,
+            Tier::Thorough => 80_000_000,
         }
     }
     fn gen(&self, rng: &mut Rng, idx: u64, _tier: Tier) -> WsScenario {
